@@ -69,6 +69,9 @@ def ieee : Arith where
   div k a b := match k with
     | .f32 => ofF32 (toF32 a / toF32 b)
     | _ => ofFloat (toFloat a / toFloat b)
+  cast k a := match k with
+    | .f32 => ofF32 (toF32 a)
+    | _ => a
 
 /-! ### parsing / printing -/
 
@@ -187,6 +190,21 @@ def floatTol : FKind → Nat × Nat
 
 def fieldsOk (q s : Int) : Bool := decide (InRange q s)
 
+/-- Verdict of a pair `(q, s)` against the real quotient `(nm·2^ne) / (dm·2^de)`:
+    quotient safely inside the hardware range → fields in range and `RatioOk`;
+    safely outside → zero multiplier; within `2^-20` of a range boundary (where the float rounding
+    of the quotient decides) → either. -/
+def pairVsRatio (q s : Int) (nm : Nat) (ne : Int) (dm : Nat) (de : Int) (tol : Nat × Nat) : String :=
+  let up : Int := dm * (2 ^ 20 + 1)
+  let dn : Int := dm * (2 ^ 20 - 1)
+  let inside := decide (DyLe up (de - 53) nm ne) && decide (DyLt nm ne dn (de + 11))
+  let outside := decide (DyLt nm ne dn (de - 53)) || decide (DyLe up (de + 11) nm ne)
+  let okIn := fieldsOk q s && decide (RatioOk q s nm ne dm de tol.1 tol.2)
+  let okOut := decide (q = 0 ∧ 0 ≤ s ∧ s ≤ 63)
+  if inside then (if okIn then "1" else if fieldsOk q s then "0:ratio" else "0:range")
+  else if outside then (if okOut then "1" else "0:outside-not-zero")
+  else (if okIn || okOut then "1" else "0:edge")
+
 def asF64 (v : FVal) : FVal := ⟨.f64, v.val⟩
 
 def anyF32 (a b c : FVal) : Bool := a.kind == .f32 || b.kind == .f32 || c.kind == .f32
@@ -285,11 +303,9 @@ def handle : List String → Option String
     | [q, s] => do
       let q ← parseInt? q
       let s ← parseInt? s
-      let k := promote (promote a.kind b.kind) c.kind
-      let tol := pairTol k
-      if ¬ fieldsOk q s then some "0:range"
-      else if ¬ RatioOk q s (m1 * m2) (e1 + e2) mo eo tol.1 tol.2 then some "0:ratio"
-      else some "1"
+      let k1 := promote a.kind b.kind
+      let k := if k1 == .f32 then FKind.f32 else promote k1 c.kind
+      some (pairVsRatio q s (m1 * m2) (e1 + e2) mo eo (pairTol k))
     | _ => none
   | "addspec" :: rest => do
     let (a, rest) ← parseFVal rest
@@ -312,8 +328,8 @@ def handle : List String → Option String
       let refOk : Bool := match ref with
         | .ok r => r.outScale == q && r.outShift == s
         | .error _ => false
-      if ¬ fieldsOk q s then some s!"0:range:{cls}"
-      else if ¬ RatioOk q s (2 * mx.1) mx.2 (mo * 2 ^ sh) eo tol.1 tol.2 then some s!"0:ratio:{cls}"
+      let v := pairVsRatio q s (2 * mx.1) mx.2 (mo * 2 ^ sh) eo tol
+      if v != "1" then some s!"{v}:{cls}"
       else if ¬ refOk then some s!"0:reference:{cls}"
       else some "1"
     | _ => none
@@ -342,12 +358,16 @@ def handle : List String → Option String
         | .ok r => r.inScale == iq && r.inShift == ish && r.outScale == q && r.outShift == s &&
                    (if r.opToScale == .opa then 1 else 2) == op
         | .error _ => false
-      -- the operand that is rescaled must be the one with the smaller scale
-      let opOk := if DyLt pa.1 pa.2 pb.1 pb.2 then op == 1 else op == 2
+      -- the operand that is rescaled must be the one with the smaller scale; when the two scales
+      -- agree to 2^-20 either choice is accepted (the ratio clauses below bound the error)
+      let aLtB := decide (DyLt (pa.1 * 2 ^ 20) pa.2 (pb.1 * (2 ^ 20 - 1)) pb.2)
+      let bLtA := decide (DyLt (pb.1 * 2 ^ 20) pb.2 (pa.1 * (2 ^ 20 - 1)) pa.2)
+      let opOk := if aLtB then op == 1 else if bLtA then op == 2 else (op == 1 || op == 2)
+      let vi := pairVsRatio iq ish (mn.1 * 2 ^ sh) mn.2 (2 * mx.1) mx.2 tol
+      let vo := pairVsRatio q s (2 * mx.1) mx.2 (mo * 2 ^ sh) eo tol
       if ¬ opOk then some "0:operand:u"
-      else if ¬ (fieldsOk q s && fieldsOk iq ish) then some s!"0:range:{cls}"
-      else if ¬ RatioOk iq ish (mn.1 * 2 ^ sh) mn.2 (2 * mx.1) mx.2 tol.1 tol.2 then some s!"0:in-ratio:{cls}"
-      else if ¬ RatioOk q s (2 * mx.1) mx.2 (mo * 2 ^ sh) eo tol.1 tol.2 then some s!"0:out-ratio:{cls}"
+      else if vi != "1" then some s!"{vi}:in:{cls}"
+      else if vo != "1" then some s!"{vo}:out:{cls}"
       else if ¬ refOk then some s!"0:reference:{cls}"
       else some "1"
     | _ => none
